@@ -139,3 +139,24 @@ def check(ctx):
     cl = [b for b in prog.children(p) if b.kind == "coroutine"]
     ok = any(b.call_sites(r"StreamMuxerExt::close$") for b in cl)
     ctx.ob("drop", "spawned task closes the muxer", ok, msg="async block in Pool::poll calls StreamMuxerExt::close")
+    # "nor counted": the established counter is advanced only inside spawn_connection (which is reached only on the Ok edge,
+    # see admit-needs-ok) and the pending counters only inside add_outgoing/add_incoming
+    for helper, allowed in (("inc_established", {"libp2p_swarm::connection::pool::Pool::spawn_connection"}),
+                            ("inc_pending", {"libp2p_swarm::connection::pool::Pool::add_outgoing"}),
+                            ("inc_pending_incoming", {"libp2p_swarm::connection::pool::Pool::add_incoming"})):
+        cs = prog.callers(SW, r"pool::ConnectionCounters::%s$" % helper)
+        who = {s.body.npath for s in cs}
+        ctx.ob("counted", "%s only where the admitted connection is registered" % helper, bool(who) and who <= allowed,
+               cs[0].loc() if cs else "", "callers of ConnectionCounters::%s: %s (allowed %s)" % (helper, sorted(who), sorted(allowed)))
+
+
+MUTANTS = [
+    {"name": "count established before the behaviour decides", "file": "swarm/src/connection/pool.rs",
+     "find": "                    let established_in = accepted_at.elapsed();\n",
+     "replace": "                    let established_in = accepted_at.elapsed();\n                    self.counters.inc_established(&endpoint);\n",
+     "expect": r"^counted/", "why": "a connection denied at the established stage stays counted forever"},
+    {"name": "spawn before asking the behaviour (inbound)", "file": "swarm/src/lib.rs",
+     "find": "Err(cause) => {\n                                let connection_error = ListenError::Denied { cause };",
+     "replace": "Err(cause) if cause.downcast_ref::<std::io::Error>().is_some() => { let _ = cause; return; }\n                            Err(cause) => {\n                                let connection_error = ListenError::Denied { cause };",
+     "expect": r"^denied/", "why": "one deny path reports nothing"},
+]
